@@ -16,12 +16,18 @@ CHECKS = {
         "note": "Trusted: the driver's timer semantics (apply_outputs: last Set*/Cancel* wins; A-C08-1), timer inputs only after arming and configured hold time in {0} ∪ [3,65535] (A-C08-2), prelude contracts as for C07. Found and fixed F-C08-1/2 (fix: commit a592161).",
         "technique": "deductive verification with Verus: postconditions over a ghost timer model on the real Connection code",
     },
+    "C10": {
+        "text": "Proof (Verus, unbounded) of the helper-side machine: GrState::process is verified in place against a coverage invariant taken from the property — every family whose routes are preserved is, after each step, still covered by an armed restart timer, an armed LLGR timer for that family or an awaited End-of-RIB, or is named in a Delete* output of that very step; nothing is deleted that was not held; helper mode is entered only by a session drop carrying GR/LLGR parameters and arms the timer(s); a session drop during the LLGR period changes nothing; StopTimer / StopLlgrTimers are emitted only on re-establishment (a failed reconnection never disarms). gr_on_disconnect is verified against the RFC 4724 / RFC 8538 decision table (never for admin shutdown, FSM error, hard reset, locally detected non-Cease errors; without the N-bit only for TCP/IO drops). By induction over the step contract the invariant holds after any input history. Two transitions that break the invariant are recorded as known findings (F-C10-1, F-C10-2) and checked as must-fail twins; a third (F-C10-3) was fixed.",
+        "design_ref": "DESIGN.md §4 C10",
+        "note": "Not covered (async driver, outside contract reach): that the driver deletes/marks exactly what GrState says and keeps its timers in step (A-C10-1, known false at two call sites by inspection), NO_LLGR handling and re-announced routes surviving the purge (Table functions, note T), families_to_drop_on_disconnect (generic iterator argument). Trusted: prelude contracts (mem::replace, is_hard_reset, R11/R12 iterator helpers), fnv hash-set model, A-C10-2.",
+        "technique": "deductive verification with Verus: per-transition coverage invariant on the real GrState::process, decision-table postcondition on gr_on_disconnect",
+    },
 }
 
 _NOT_BUILT = "claimed in DESIGN.md but its check is not built yet in this round; listed here until the check is quiet on the unchanged tree"
 NOT_APPLICABLE = {
     "C01": _NOT_BUILT, "C02": _NOT_BUILT, "C03": _NOT_BUILT, "C04": _NOT_BUILT, "C05": _NOT_BUILT,
-    "C06": _NOT_BUILT, "C09": _NOT_BUILT, "C10": _NOT_BUILT, "C12": _NOT_BUILT, "C14": _NOT_BUILT,
+    "C06": _NOT_BUILT, "C09": _NOT_BUILT, "C12": _NOT_BUILT, "C14": _NOT_BUILT,
     "C16": _NOT_BUILT, "C19": _NOT_BUILT,
     "C11": "RestartingDeferral::{new,process} use ~15 iterator adapters and the HashMap Entry API that Verus rejects (a function is verified whole or not at all) and CBMC does not terminate on hashbrown (20-min timeout at the smallest non-vacuous unwinding); no contract within reach decides it (DESIGN.md §5)",
     "C13": "the PDU fold lives inline in async fn serve_inner (tokio::select! over a Framed stream): Verus has no async, Kani no tokio; no non-async function carries the property (DESIGN.md §5)",
